@@ -327,4 +327,22 @@ def byDatatype {γ : Type} (many : Option (P γ)) (arms : List (Arm γ)) : P γ 
     | some m => if t = .array then (array cur).andThen fun _ r => m r else byDatatypeArms arms t cur
     | none => byDatatypeArms arms t cur
 
+/-- an instance of the macro, the harness enum `Thing`: `codec_by_datatype! { U8|U16|U32|U64 => Coin, Bool => Flag, Bytes => Blob, (a, b => Multi) }` -/
+inductive Thing where
+  | coin (a : AnyUInt) | flag (b : Bool) | blob (b : Bytes) | multi (a : AnyUInt) (n : Nullable Nat)
+
+def Thing.enc : Thing → Bytes
+  | .coin a => AnyUInt.enc a
+  | .flag b => encBool b
+  | .blob b => encBytes b
+  | .multi a n => encArrayHead 2 ++ AnyUInt.enc a ++ Nullable.enc cU64 n
+
+def Thing.dec : P Thing :=
+  byDatatype
+    (some fun cur => (AnyUInt.dec cur).andThen fun a r => (Nullable.dec cU64 r).map fun n => Thing.multi a n)
+    [⟨fun t => t == .u8 || t == .u16 || t == .u32 || t == .u64, fun cur => (AnyUInt.dec cur).map .coin⟩,
+     ⟨fun t => t == .bool, fun cur => (Minicbor.bool cur).map .flag⟩,
+     ⟨fun t => t == .bytes, fun cur => (Minicbor.bytes cur).map .blob⟩]
+
+
 end PallasVerif.Wrappers
